@@ -457,6 +457,9 @@ class ProdParser(object):
             :unusedtokens: token generator containing tokens not used yet
         """
         tokens = self._texttotokens(text)
+        # a parse started from a string has no enclosing parser that could
+        # take over a pushed back token
+        toplevel = isinstance(text, string_type)
 
         if not tokens:
             self._log.error('No content to parse.')
@@ -657,6 +660,14 @@ class ProdParser(object):
             if not emptyOk and not len(seq):
                 self._log.error('No content to parse.')
                 return False, [], None, None
+
+        if toplevel and savedTokens:
+            # trailing content nobody is left to parse: it must not leak into
+            # the next, unrelated parse
+            leftover = savedTokens.pop()
+            del savedTokens[:]
+            wellformed = False
+            self._log.error('%s: Unexpected trailing token: %r' % (name, leftover,))
 
         # trim S from end
         seq.rstrip()
